@@ -221,20 +221,29 @@ impl SubRule {
         for (bef_cont_states, aft_cont_states) in contexts {
             let mut bef_cont_states = bef_cont_states.clone();
             bef_cont_states.reverse();
+            let back_alphas = self.alphas.borrow().clone();
+            let back_varlbs = self.variables.borrow().clone();
             if (bef_cont_states.is_empty() || self.match_before_env(&bef_cont_states, &word_rev, &start_pos.reversed(word), false, true)?) 
             && (aft_cont_states.is_empty() || self.match_after_env(aft_cont_states, word, &end_pos, false, inc, true)?) {
                 is_cont_match = true;
                 break;
             }
+            // what an environment that did not match has bound must not reach the next alternative
+            *self.alphas.borrow_mut() = back_alphas;
+            *self.variables.borrow_mut() = back_varlbs;
         }
         for (bef_expt_states, aft_expt_states) in exceptions {
             let mut bef_expt_states = bef_expt_states.clone();
             bef_expt_states.reverse();
+            let back_alphas = self.alphas.borrow().clone();
+            let back_varlbs = self.variables.borrow().clone();
             if (bef_expt_states.is_empty() || self.match_before_env(&bef_expt_states, &word_rev, &start_pos.reversed(word), false, false)?) 
             && (aft_expt_states.is_empty() || self.match_after_env(aft_expt_states, word, &end_pos, false, inc, false)?) {
                 is_expt_match = true;
                 break;
             }
+            *self.alphas.borrow_mut() = back_alphas;
+            *self.variables.borrow_mut() = back_varlbs;
         }
         Ok(!is_expt_match && is_cont_match)
     }
